@@ -5,7 +5,7 @@ LEVEL = "model_checking"
 MODULES = dict(fmfile.modules(), fmedit=dict(harness=["fm_edit.cpp"], entries=("h_c06", "h_c03", "h_c11", "h_c14")))
 prepare = fblock.prepare
 BOUNDS = {
-    "quick": {"block_types": "all registered (from Factory.cpp)", "version": "symbolic (file,user,stream) under the loader's acceptance predicate", "count_cap_B": 1, "input_bytes_L": 256, "budget_s_per_type": 8},
+    "quick": {"block_types": "all registered (from Factory.cpp)", "version": "symbolic (file,user,stream) under the loader's acceptance predicate", "count_cap_B": 1, "input_bytes_L": 256, "budget_s_per_type": 12},
     "thorough": {"block_types": "all registered", "version": "symbolic, split into 3 version classes", "count_cap_B": 2, "input_bytes_L": 512, "budget_s_per_type": 120},
 }
 ASSUMPTIONS = ['block level: arbitrary input bytes <= L, counts <= B, symbolic version']
